@@ -149,6 +149,31 @@ def tables_snapshot():
     return (None if scope is None else scope.name, str(SYMBOL_TABLES))
 
 
+def _table_dump(table, indent, out):
+    syms = getattr(table, "_data_symbols", {})
+    out.append("%s%s: symbols=%s" % (indent, table.name, sorted(
+        (k, getattr(v, "primitive_type", None)) for k, v in syms.items())))
+    for name, use in sorted(getattr(table, "_modules", {}).items()):
+        out.append("%s  use %s only=%s rename=%s wildcard=%s" % (
+            indent, name, sorted(use.only_list) if use.only_list is not None else None,
+            sorted(use.rename_list) if use.rename_list is not None else None,
+            use.wildcard_import))
+    for child in table.children:
+        _table_dump(child, indent + "    ", out)
+
+
+def tables_contents():
+    """Every symbol table reachable from SYMBOL_TABLES with its entries (data symbols, module
+    uses, nested tables): what 'no symbol-table entry of the failed parse remains' is about.
+    str(SYMBOL_TABLES) lists only the names of the top-level tables."""
+    from fparser.two.symbol_table import SYMBOL_TABLES
+
+    out = []
+    for name in sorted(SYMBOL_TABLES._symbol_tables):
+        _table_dump(SYMBOL_TABLES._symbol_tables[name], "", out)
+    return "\n".join(out)
+
+
 def table_names():
     _, text = tables_snapshot()
     return [ln for ln in text.split("\n")[2:] if ln]
